@@ -21,8 +21,98 @@ func init() {
 	generators["C03"] = genC03
 }
 
+// genC03Scale: histories that cross the store's fixed size thresholds, which
+// the small histories never reach: more than 1024 superseding calls between two
+// flushes (the capacity the write pools and the freelist pool are created
+// with), or 1400-1800 keys in distinct buckets written by one flush (more index
+// record lists, primary records and freelist entries than fit the 64 KiB write
+// buffers, so the buffered writers spill to the files in the middle of a commit).
+func genC03Scale(seed uint64, tier string) *Plan {
+	r := simrt.NewRand(seed ^ 0x5ca1e)
+	p := &Plan{Engine: "crash", X: map[string]int{"scale": 1}}
+	p.Cfg = StoreCfg{Primary: "multihash", Bits: []uint8{12, 16, 16}[r.Intn(3)], FileCache: 512,
+		IndexFile: []uint32{1 << 30, 1 << 30, 65536, 4096}[r.Intn(4)], PrimaryFile: []uint32{1 << 30, 1 << 30, 65536, 4096}[r.Intn(4)]}
+	p.Cfg.GCMs = 1000 * 3600 * 1000
+	vseq := 0
+	put := func(k int) Op { vseq++; return Op{K: "put", Key: k, VSeq: vseq, VLen: 4 + r.Intn(40)} }
+	randomKeys := func(n int) {
+		seen := map[string]bool{}
+		for len(p.Keys) < n {
+			d := make([]byte, 32)
+			for j := range d {
+				d[j] = byte(r.Intn(256))
+			}
+			if !seen[string(d[:4])] { // distinct leading bytes: distinct buckets where the bit size allows
+				seen[string(d[:4])] = true
+				p.Keys = append(p.Keys, KeySpec{Digest: d, Code: codeSHA256})
+			}
+		}
+	}
+	if r.Chance(0.5) {
+		// burst: a few keys, flushed, then > 1024 overwrites / removals without a flush
+		p.X["burst"] = 1
+		randomKeys(1 + r.Intn(3))
+		nk := len(p.Keys)
+		for k := 0; k < nk; k++ {
+			p.Ops = append(p.Ops, put(k))
+		}
+		p.Ops = append(p.Ops, Op{K: "flush"})
+		n := 1030 + r.Intn(300)
+		for i := 0; i < n; i++ {
+			k := r.Intn(nk)
+			if r.Chance(0.1) {
+				p.Ops = append(p.Ops, Op{K: "remove", Key: k})
+			} else {
+				p.Ops = append(p.Ops, put(k))
+			}
+		}
+	} else {
+		// wide: many buckets in one flush
+		p.X["wide"] = 1
+		randomKeys(1400 + r.Intn(400))
+		for k := range p.Keys {
+			p.Ops = append(p.Ops, put(k))
+		}
+		p.Ops = append(p.Ops, Op{K: "flush"})
+		for i := 0; i < 1100+r.Intn(500); i++ {
+			k := r.Intn(len(p.Keys))
+			if r.Chance(0.15) {
+				p.Ops = append(p.Ops, Op{K: "remove", Key: k})
+			} else {
+				p.Ops = append(p.Ops, put(k))
+			}
+		}
+	}
+	// the tail: GC cycles and flushes in some order, then a little more work
+	for i := 0; i < 2+r.Intn(4); i++ {
+		switch r.Intn(4) {
+		case 0:
+			p.Ops = append(p.Ops, Op{K: "flush"})
+		case 1:
+			p.Ops = append(p.Ops, Op{K: "igc", A: r.Intn(2)})
+		default:
+			p.Ops = append(p.Ops, Op{K: "pgc", A: []int{0, 50, 85, 101}[r.Intn(4)]})
+		}
+		if r.Chance(0.5) {
+			p.Ops = append(p.Ops, put(r.Intn(len(p.Keys))))
+		}
+	}
+	p.Ops = append(p.Ops, Op{K: "flush"})
+	p.X["followup"] = 6
+	p.X["sample"] = 16
+	if tier == "thorough" {
+		p.X["sample"] = 60
+	}
+	p.X["crash_at"] = -1
+	p.Sim = SimCfg{Strategy: simrt.Strategy{Kind: "sticky", Stick: 0.9}}
+	return p
+}
+
 func genC03(seed uint64, tier string) *Plan {
 	r := simrt.NewRand(seed)
+	if r.Chance(0.03) {
+		return genC03Scale(seed, tier)
+	}
 	p := &Plan{Engine: "crash", X: map[string]int{}}
 	p.Cfg = genCfg(r, false)
 	if p.Cfg.Bits > 17 {
